@@ -29,7 +29,11 @@ let handle (line : string) : string =
                   st.rest = [] && show_val v' = show_val (inst_normalize v)
                   && (match inst_enc_top v' with Some b' -> b' = b | None -> false)
               | _ -> false) in
-           Printf.sprintf "ok %s %s %s" (hex_of_bytes b) (show_val (inst_normalize v)) (if self_ok then "1" else "model-roundtrip-fails")
+           (* the hypothesis of theorem C01_roundtrip, evaluated: a value with a proper top-level tag that satisfies it
+              MUST round-trip in the model; one that does not is reported as outside the theorem *)
+           let wfb = inst_wf_b v in
+           if wfb && not self_ok then "theorem-contradicted"
+           else Printf.sprintf "ok %s %s %s" (hex_of_bytes b) (show_val (inst_normalize v)) (if self_ok then "1" else "model-roundtrip-fails")
        | _ -> "err")
   | "stream" ->
       let ty, hex = split1 rest in
@@ -41,6 +45,7 @@ let handle (line : string) : string =
         | Err -> List.rev ("err" :: acc)
         | OutOfFuel -> List.rev ("fuel" :: acc) in
       String.concat " | " (go 64 (bytes_of_hex hex) [])
+  | "wf" -> if inst_wf_b (val_of_string rest) then "wf" else "not-wf"
   | "hello" -> if type_codes_b then "hello ok" else "hello type-codes-differ"
   | _ -> Ext.handle cmd rest
 
